@@ -171,11 +171,12 @@ func (m *LabelMap) UnmarshalJSON(data []byte) error {
 // attributes plus msg = body when the body is not empty.
 func (r Rec) BaseLabels() map[string]string {
 	m := make(map[string]string, len(r.Labels)+1)
-	for k, v := range r.Labels {
-		m[KeyToLabel(k)] = v
-	}
 	if r.Line != "" {
 		m[BodyLabel] = string(r.Line)
+	}
+	// (an attribute named like the body label is written after it and stays)
+	for k, v := range r.Labels {
+		m[KeyToLabel(k)] = v
 	}
 	return m
 }
@@ -546,6 +547,8 @@ func ExpandTemplate(parts []gen.TmplPart, ts int64, line string, labels map[stri
 			sb.WriteString(strings.TrimPrefix(labels[t.A], t.Text))
 		case "trimSuffix":
 			sb.WriteString(strings.TrimSuffix(labels[t.A], t.Text))
+		case "root_index":
+			sb.WriteString(labels[t.A])
 		case "b64enc":
 			sb.WriteString(base64.StdEncoding.EncodeToString([]byte(labels[t.A])))
 		case "if_contains":
